@@ -6,6 +6,9 @@ import Reduino.Lang.CSem
   first-assignment-wins typing, `x op= e` → `x = (x op e)` (every operator of `_BIN`, so `&= |= ^= //= %=` too), folding of
   name-free `sleep(...)` / `range(...)` arguments to their PYTHON value (`sleep(-7 % 3)` becomes `delay(2)` although
   `(-7 % 3)` emitted as text is -1 in C), the setup/loop split and the `break` guard of the main loop.
+  Tuple assignment `x0, x1 = e0, e1` with declared targets (top level, nested blocks, main loop): temporaries `__tmp_assign_N`
+  numbered by the counter threaded through the parse (`Stmt.tmpEnd`; `tr` refuses a program whose stored numbers are not the
+  parser's), declared with the inferred type of their right-hand side, then the plain assignments.
   A name-free initialiser that Python cannot evaluate (`x = 7 // 0`) is not a constant: default + run-time assignment.
   Programs that assign a NEW name below the top level (they need the promotion machinery) are outside the fragment.
 -/
@@ -58,12 +61,25 @@ def defaultOf : Ty → Expr
   | .int => .int 0
   | .bool => .bool false
 
+/-- every target of a tuple assignment is declared with the type inferred for its right-hand side -/
+def okTargets (te : C.TyEnv) : List String → List Expr → Bool
+  | x :: xs, e :: es => (te.lookup x == some (inferTy te e)) && okTargets te xs es
+  | _, _ => true
+
 /-- nested statements: every assigned name must already be declared -/
 def trNested (te : C.TyEnv) (inMain : Bool) : Nat → Stmt → Except TrErr Stmt
   | _, .skip => .ok .skip
   | d, .seq a b => do let a' ← trNested te inMain d a; let b' ← trNested te inMain d b; pure (.seq a' b')
   | _, .assign x e => if (te.lookup x).isSome then .ok (.assign x e) else .error .outsideFragment
   | _, .aug x op e => if (te.lookup x).isSome then .ok (.assign x (.bin op (.var x) e)) else .error .outsideFragment
+  -- tuple assignment with every target already declared (with the type of its right-hand side): one temporary per right-hand
+  -- side, typed by `_infer_expr_type`, then the assignments.  A target that is not declared yet takes other paths of
+  -- `_handle_assignment_ast` (all-new names at global scope: plain global declarations; otherwise a LOCAL declaration of the new
+  -- name, finding F17), a target of another type is re-typed (K02): not modelled
+  | _, .tuple k xs es =>
+    if xs.length = es.length ∧ okTargets te xs es = true then .ok (.ctuple k (es.map (inferTy te)) xs es)
+    else .error .outsideFragment
+  | _, .ctuple _ _ _ _ => .error .outsideFragment
   | d, .ifs c t e => do let t' ← trNested te inMain d t; let e' ← trNested te inMain d e; pure (.ifs c t' e')
   | d, .whileLoop c b => do let b' ← trNested te inMain (d + 1) b; pure (.whileLoop c b')
   | d, .forRange i n b =>
@@ -100,11 +116,20 @@ def seqOf : List Stmt → Stmt
   | [s] => s
   | s :: rest => .seq s (seqOf rest)
 
-def tr (p : Prog) : Except TrErr CProg := do
+def trCore (p : Prog) : Except TrErr CProg := do
   let acc ← trTop {} p.pre
   let loop ← match p.body with
     | none => pure Stmt.skip
     | some b => trNested acc.te true 0 b
   pure { globals := acc.globals.reverse, setup := seqOf acc.setup.reverse, loop := loop }
+
+/-- tuple statements must carry the parser's counter (`Prog.renum` establishes it; the driver applies it to every program read) -/
+def tr (p : Prog) : Except TrErr CProg := if p.numbered then trCore p else .error .outsideFragment
+
+theorem tr_ok {p : Prog} {c : CProg} (h : tr p = .ok c) : p.numbered = true ∧ trCore p = .ok c := by
+  unfold tr at h
+  split at h
+  · exact ⟨‹_›, h⟩
+  · cases h
 
 end Reduino.Lang
